@@ -48,19 +48,23 @@ def modify (s : SMap w V) (q : Pfx w) (f : V → V) : SMap w V :=
 /-- entries whose prefix covers `q`, by increasing length -/
 def cover (s : SMap w V) (q : Pfx w) : SMap w V := s.filter (fun e => covers e.1 q)
 
+/-- keep the longer of the best so far and `e` -/
+def pickLonger (best : Option (Pfx w × V)) (e : Pfx w × V) : Option (Pfx w × V) :=
+  match best with
+  | none => some e
+  | some b => if b.1.len < e.1.len then some e else some b
+
+/-- keep the shorter of the best so far and `e` -/
+def pickShorter (best : Option (Pfx w × V)) (e : Pfx w × V) : Option (Pfx w × V) :=
+  match best with
+  | none => some e
+  | some b => if e.1.len < b.1.len then some e else some b
+
 /-- longest-prefix match: the covering entry of greatest length -/
-def lpm (s : SMap w V) (q : Pfx w) : Option (Pfx w × V) :=
-  (cover s q).foldl (fun best e =>
-    match best with
-    | none => some e
-    | some b => if b.1.len < e.1.len then some e else some b) none
+def lpm (s : SMap w V) (q : Pfx w) : Option (Pfx w × V) := (cover s q).foldl pickLonger none
 
 /-- shortest-prefix match: the covering entry of least length -/
-def spm (s : SMap w V) (q : Pfx w) : Option (Pfx w × V) :=
-  (cover s q).foldl (fun best e =>
-    match best with
-    | none => some e
-    | some b => if e.1.len < b.1.len then some e else some b) none
+def spm (s : SMap w V) (q : Pfx w) : Option (Pfx w × V) := (cover s q).foldl pickShorter none
 
 /-- entries covered by the key `k` -/
 def under (s : SMap w V) (k : Key) : SMap w V := s.filter (fun e => k.isPrefixOf (key e.1))
